@@ -57,6 +57,20 @@ class Prop(PropBase):
                     b = g2 + [0, 2, 0, 0, 0, 9, 0, 0, 1, 24, 27, 25]
                     cs.append(Case("T %d ; %s ; %s ; %s" % (bits, tg.op_we(a), tg.op_we(b), tg.op_we(a)), sweep="charset-pairs",
                                    cfgs=[cfgs[(c1 * 19 + c2) % len(cfgs)]]))
+        # every sequence of three elements over {US-ASCII, DEC special graphics, UK, UTF-8} x {a code that looks the same in
+        # all of them, a code DEC draws differently, a code UK draws differently}: what is designated after the second
+        # element decides how the third is shown
+        import itertools
+        alpha = []
+        for csid in (5, 0, 4, 18):
+            for code in (0x41, 0x71, 0x23):
+                g = [csid] + (tg.utf8_bytes(code) if csid == 18 else [code, 0, 0])
+                alpha.append(tg.fmt_el(g + tg.DEFAULT_ATTR))
+        k = 0
+        for tri in itertools.product(alpha, repeat=3):
+            for bits in ((0, 16) if tier == "thorough" else ((0,) if k % 2 else (16,))):
+                cs.append(Case("T %d ; we %s ; we %s ; we %s" % ((bits,) + tri), sweep="charset-code-triples", cfgs=[cfgs[k % len(cfgs)]]))
+            k += 1
         n = 1500 if tier == "quick" else 30000
         for i in range(n):
             nops = rng.choice([1, 2, 3, 5, 8, 13, 21, 34, 60]) if tier == "quick" else rng.choice([1, 3, 8, 21, 60, 150, 400])
